@@ -18,20 +18,24 @@ import (
 const verifDir = "/verif"
 
 type PropConfig struct {
-	ID         string         `json:"id"`
-	Packages   []string       `json:"packages"`
-	Functions  []string       `json:"functions"` // regexps over short function keys of contracts to verify
-	Exclude    []string       `json:"exclude"`
-	MinObls    int            `json:"min_obligations"`
-	NotDecided []string       `json:"not_decided"`
-	Assumes    []string       `json:"assumptions"`
-	Bounded    []string       `json:"bounded"`
-	DesignRef  string         `json:"design_ref"`
-	Lemmas     []string       `json:"lemmas"`
-	JSONSweep  bool           `json:"jsonable_sweep"`
-	Confine    *ConfineConfig `json:"confine"`
-	GoSweep    *GoSweepConfig `json:"go_sweep"`
-	PathAxioms map[string]int `json:"path_axioms"` // tier -> maximum number of path components
+	ID            string         `json:"id"`
+	Packages      []string       `json:"packages"`
+	Functions     []string       `json:"functions"` // regexps over short function keys of contracts to verify
+	Exclude       []string       `json:"exclude"`
+	MinObls       int            `json:"min_obligations"`
+	NotDecided    []string       `json:"not_decided"`
+	Assumes       []string       `json:"assumptions"`
+	Bounded       []string       `json:"bounded"`
+	DesignRef     string         `json:"design_ref"`
+	Lemmas        []string       `json:"lemmas"`
+	JSONSweep     bool           `json:"jsonable_sweep"`
+	Confine       *ConfineConfig `json:"confine"`
+	GoSweep       *GoSweepConfig `json:"go_sweep"`
+	ReceiverFrame []string       `json:"receiver_frame"` // regexps on short keys: handlers that must not write their (shared) receiver
+	// accessors of keyed shared state (short key -> why): the rule does not look inside them, but each must be
+	// verified in the same run against a contract with a frame check (its clauses say which entries it touches)
+	ReceiverFrameAccessors map[string]string `json:"receiver_frame_accessors"`
+	PathAxioms             map[string]int    `json:"path_axioms"` // tier -> maximum number of path components
 	// returns that are unreachable under the contracts' assumptions, each reviewed and explained; any
 	// other unreachable return is reported as a vacuity violation
 	ExpectedDead map[string]string `json:"expected_dead"`
@@ -191,6 +195,51 @@ func cmdCheck(args []string) {
 			Prefix: 1, Goal: goal, Script: []string{"(set-logic ALL)"}, Time: time.Since(t0).Seconds()})
 		cfg.Bounded = append(cfg.Bounded, fmt.Sprintf("path/filepath axioms A1..A5: bounded validation against the real library, paths of up to %d components (%d instances, %.1fs); not a proof", n, cnt, time.Since(t0).Seconds()))
 	}
+	if len(cfg.ReceiverFrame) > 0 {
+		var rfs []*regexp.Regexp
+		for _, f := range cfg.ReceiverFrame {
+			rfs = append(rfs, regexp.MustCompile("^(?:"+f+")$"))
+		}
+		var fl []*ssa.Function
+		for fn := range L.allFuncs {
+			fl = append(fl, fn)
+		}
+		sort.Slice(fl, func(i, j int) bool { return L.funcKey(fl[i]) < L.funcKey(fl[j]) })
+		cnt := 0
+		var accNames []string
+		for a := range cfg.ReceiverFrameAccessors {
+			accNames = append(accNames, a)
+		}
+		sort.Strings(accNames)
+		for _, a := range accNames {
+			ok := false
+			for _, t := range targets {
+				if L.funcKeyShort(t.fn) == a && t.sp != nil && t.sp.Checks["frame"] && t.sp.HasMod && !t.sp.ModAll && !t.sp.Trusted {
+					ok = true
+				}
+			}
+			goal, desc := "true", "accessor of keyed shared state is verified against a contract with a frame check in this run: "+cfg.ReceiverFrameAccessors[a]
+			if !ok {
+				goal, desc = "false", "accessor of keyed shared state has no verified contract with a frame check (modifies) in this run"
+			}
+			all = append(all, &Obligation{ID: a + "/receiver-frame/accessor#1", Kind: "confine", Func: a, Pos: "props/" + id + ".json", Desc: desc,
+				Prefix: 1, Goal: goal, Script: []string{"(set-logic ALL)"}})
+		}
+		for _, fn := range fl {
+			if p := pkgOf(fn); p == nil || !strings.HasPrefix(p.Pkg.Path(), modulePath) {
+				continue
+			}
+			sk := L.funcKeyShort(fn)
+			for _, re := range rfs {
+				if re.MatchString(sk) {
+					all = append(all, L.receiverFrame(fn, cfg.ReceiverFrameAccessors)...)
+					cnt++
+					break
+				}
+			}
+		}
+		cfg.Assumes = append(cfg.Assumes, fmt.Sprintf("receiver-frame rule (back end: go/ssa, structural): %d handlers decided: no store, map update or delete whose target is reached from the receiver by field selection, indexing and loads, in the handler, the closures that capture the receiver and the module functions it hands the receiver to (three levels); accessors exempt because verified against their own contract: %s; not covered: writes made by functions that receive a pointer loaded from the receiver (not the receiver itself), and by interface or third-party methods", cnt, strings.Join(accNames, ", ")))
+	}
 	if cfg.GoSweep != nil {
 		verified := map[string]bool{}
 		for _, t := range targets {
@@ -211,6 +260,11 @@ func cmdCheck(args []string) {
 		cfg.Assumes = append(cfg.Assumes, fmt.Sprintf("confinement sweep (back end: go/ssa, structural): %d path-taking calls of %s inside %s each carry a call-site containment condition; exempt: %s", len(co), strings.Join(cfg.Confine.Callees, ", "), strings.Join(cfg.Confine.Packages, ", "), strings.Join(notes, "; ")))
 	}
 	dischargeAll(pending(all), opt)
+	if os.Getenv("VERIF_LIST") != "" {
+		for _, o := range all {
+			fmt.Printf("  %-8s %-9s %s  [%s]\n", o.Kind, o.Verdict, o.ID, o.Pos)
+		}
+	}
 
 	known := loadKnown()
 	openByObl := map[string]*KnownFinding{}
